@@ -46,6 +46,7 @@ def make_classes(hook=None):
         d.update(extra)
         return d
 
+    hook["body"] = body
     M = singleton.TrueSingleton
     T = M("T", (object,), body("T"))
     T1 = M("T1", (T,), body("T1"))
@@ -99,6 +100,7 @@ class St:
         self.stats = collections.Counter()
         self.mutations = 0
         self.cleared_once = set()
+        self.defined = []  # classes defined in mid-history
 
     def lab(self, obj):
         if obj is None:
@@ -126,7 +128,8 @@ class C18(engine.Property):
     rule = (
         "one evaluation = one seeded history of constructions (arbitrary positional / "
         "keyword arguments) and targeted / global clears over a singleton class, two levels "
-        "of subclasses and an unrelated class, checked against a cls->instance model after "
+        "of subclasses, unrelated classes, falsy-instance classes, a derived metaclass, a factory "
+        "__new__ pair and classes that come into being in mid-history under an existing bare name, checked against a cls->instance model after "
         "every step with every class's live instance re-checked; distinct = distinct "
         "event-log digest; non-trivial = at least 3 constructions-or-clears that changed the table"
     )
@@ -151,6 +154,8 @@ class C18(engine.Property):
         "construction-failed-in-init",
         "derived-metaclass-class-cleared-while-others-live",
         "factory-new-front-class-constructed",
+        "singleton-class-defined-in-mid-history",
+        "class-defined-while-others-live",
     ]
 
     def make_config(self, rng):
@@ -166,17 +171,25 @@ class C18(engine.Property):
             "hold_refs": rng.random() < 0.6,
             "p_during": rng.choice([0.0, 0.0, 0.1, 0.3]),
             "p_init_fails": rng.choice([0.0, 0.0, 0.08, 0.2]),
+            "p_define": rng.choice([0.0, 0.0, 0.05, 0.12]),
         }
 
     def start(self, cfg):
         return St(cfg)
 
     def next_op(self, rng, cfg, st):
+        if cfg.get("p_define") and len(st.defined) < 3 and rng.random() < cfg["p_define"]:
+            # a new singleton class comes into being in mid-history (a module
+            # imported late, a class statement in a function): same module and
+            # same bare name as an existing class, another qualified name
+            like = rng.choice(cfg["classes"])
+            return {"op": "define", "name": st.namer.new("X"), "like": like, "sub": rng.random() < 0.4}
         r = rng.random()
+        classes = cfg["classes"] + st.defined
         if r < cfg["p_clear_all"]:
             return {"op": "clear_all"}
         if r < cfg["p_clear_all"] + cfg["p_clear"]:
-            return {"op": "clear", "cls": rng.choice(cfg["classes"])}
+            return {"op": "clear", "cls": rng.choice(classes)}
         args = [rng.choice(ARG_POOL) for _ in range(rng.randint(0, 2))]
         kwargs = []
         if rng.random() < cfg["p_kwargs"]:
@@ -185,7 +198,7 @@ class C18(engine.Property):
             kwargs = [[rng.choice(["x", "y", "key", "mapping", "factory", "instance", "name", "value"]), rng.choice(ARG_POOL)]]
         op = {
             "op": "construct",
-            "cls": rng.choice(cfg["classes"]),
+            "cls": rng.choice(classes),
             "args": args,
             "kwargs": kwargs,
             "new": st.namer.new("i"),
@@ -209,6 +222,28 @@ class C18(engine.Property):
         s["op:" + k] += 1
         out = {"ret": None}
         v = None
+        if k in ("construct", "clear") and op["cls"] not in st.classes:
+            return None, None
+        if k == "define":
+            if op["name"] in st.classes or op["like"] not in st.classes:
+                return None, None
+            like = st.classes[op["like"]]
+            bare = like.__name__
+            ns = st.hook["body"](f"Outer{len(st.defined)}.{bare}")
+            bases = (like,) if op.get("sub") and op["like"] not in ("P", "P1") else (object,)
+            try:
+                klass = type(like)(bare, bases, ns)
+            except Exception as exc:  # pylint: disable=broad-except
+                return {"exc": type(exc).__name__}, engine.viol(
+                    "C18/class-definition-raised", {"op": op, "exc": type(exc).__name__}
+                )
+            st.classes[op["name"]] = klass
+            st.model[op["name"]] = None
+            st.defined.append(op["name"])
+            s["probe:singleton-class-defined-in-mid-history"] += 1
+            if any(st.model[c] for c in st.model):
+                s["probe:class-defined-while-others-live"] += 1
+            return {"ret": klass.__qualname__}, self._recheck(st, op)
         if k == "construct":
             cls = op["cls"]
             if op["new"] in st.inst:
@@ -299,7 +334,7 @@ class C18(engine.Property):
             cls = op["cls"]
             if st.model[cls] is None:
                 s["probe:clear-class-without-instance"] += 1
-            if any(st.model[c] for c in CLASS_NAMES if c != cls):
+            if any(st.model[c] for c in list(st.model) if c != cls):
                 s["probe:targeted-clear-with-others-live"] += 1
                 if cls == "D":
                     s["probe:derived-metaclass-class-cleared-while-others-live"] += 1
@@ -314,7 +349,7 @@ class C18(engine.Property):
             st.model[cls] = None
             st.cleared_once.add(cls)
         elif k == "clear_all":
-            if sum(1 for c in CLASS_NAMES if st.model[c]) >= 2:
+            if sum(1 for c in list(st.model) if st.model[c]) >= 2:
                 s["probe:global-clear-with-several-live"] += 1
             try:
                 singleton.clear_true_singleton()
@@ -322,7 +357,7 @@ class C18(engine.Property):
                 return {"exc": type(exc).__name__}, engine.viol(
                     "C18/clear-raised", {"op": op, "exc": type(exc).__name__}
                 )
-            for c in CLASS_NAMES:
+            for c in list(st.model):
                 if st.model[c] is not None:
                     st.mutations += 1
                     st.cleared_once.add(c)
@@ -341,7 +376,7 @@ class C18(engine.Property):
             return
         if d["op"] == "clear_all":
             singleton.clear_true_singleton()
-            for c in CLASS_NAMES:
+            for c in list(st.model):
                 if st.model[c] is not None:
                     st.cleared_once.add(c)
                 st.model[c] = None
@@ -385,7 +420,7 @@ class C18(engine.Property):
         instance (a construction on a live class has no side effect when the
         property holds, so this observation does not disturb the history).
         """
-        for c in CLASS_NAMES:
+        for c in list(st.model):
             lab = st.model[c]
             if lab is None:
                 continue
